@@ -82,8 +82,17 @@ type frame struct {
 	atStoreN int
 }
 
+// symbols of the SMT prelude that a Go parameter or local may not shadow (|base| and base are the same SMT symbol)
+var preludeSyms = map[string]bool{"base": true, "ea": true, "ea_arr": true, "ea_idx": true, "akind": true, "slen": true, "tag": true,
+	"iface_nil": true, "fdiv": true, "fmod": true, "tdiv": true, "trem": true, "sidx": true, "ssub": true, "sconcat": true, "scmp": true,
+	"Iface": true, "Slice": true, "Str": true, "hw": true, "select": true, "store": true, "true": true, "false": true, "not": true, "and": true, "or": true, "ite": true, "let": true, "exists": true, "forall": true, "distinct": true, "abs": true, "div": true, "mod": true}
+
 func (fr *frame) name(v ssa.Value) string {
-	return "|" + fr.prefix + v.Name() + "|"
+	n := fr.prefix + v.Name()
+	if preludeSyms[n] {
+		n += "$go"
+	}
+	return "|" + n + "|"
 }
 
 func posOf(fn *ssa.Function, p token.Pos) string {
